@@ -139,9 +139,34 @@ func srcOf[V comparable](et ElemType[V], vs []V, ctx string, multiline bool) str
 	return "[" + strings.Join(lits, ", ") + "](" + ctx + ")"
 }
 
+// c20poison makes a module-level constructor reject a malformed source (with the
+// default notation); the constructor calls that follow must not notice.
+func c20poison(c *core.Ctx, r *core.Rng) string {
+	bad := []string{"[1, 2", "[1 2](List)", "](List", "[\"a\": ](Catalog)", "[1, 2](Nope)", "[[1](List)"}[r.Intn(6)]
+	k := r.Intn(4)
+	Try(func() {
+		switch k {
+		case 0:
+			mod.List[int64](bad)
+		case 1:
+			mod.Set[any](bad)
+		case 2:
+			mod.Catalog[string, int64](bad)
+		default:
+			mod.ParseSource(bad)
+		}
+	})
+	c.Cover("earlier-rejected-source")
+	return fmt.Sprintf("%s(%q)", []string{"List[int64]", "Set[any]", "Catalog[string,int64]", "ParseSource"}[k], bad)
+}
+
 // RunC20Seq: one cell of the matrix for the five sequence kinds.
 func RunC20Seq[V comparable](c *core.Ctx, et ElemType[V], kind string, maxQueue int) {
 	r := c.Rng
+	poison := ""
+	if r.Chance(1, 5) {
+		poison = c20poison(c, r)
+	}
 	n := r.Intn(21)
 	if r.Chance(1, 3) {
 		n = r.Intn(4)
@@ -157,6 +182,9 @@ func RunC20Seq[V comparable](c *core.Ctx, et ElemType[V], kind string, maxQueue 
 	form := forms[r.Intn(len(forms))]
 	x := &c20ctx{c: c, cell: kind + "/" + et.Name + "/" + form}
 	x.cs = map[string]any{"kind": kind, "element": et.Name, "form": form, "values": fmt.Sprintf("%#v", vs)}
+	if poison != "" {
+		x.cs["earlier_rejected_call"] = poison
+	}
 	N := Notation
 	var got, want col.Sequential[V]
 	sig := kind + "/" + form
@@ -279,8 +307,9 @@ func RunC20Seq[V comparable](c *core.Ctx, et ElemType[V], kind string, maxQueue 
 		}
 	})
 	if pan || noret {
-		if empty && kind == "Array" {
-			// an Array needs a size or contents: an empty argument is treated like no argument
+		if empty && kind == "Array" && form == "array" {
+			// an Array needs a size or contents: an empty Go array cannot be told from "no
+			// argument" (an empty sequence and an empty source are arguments: they work)
 			c.Cover("array-empty-argument-rejected")
 			return
 		}
@@ -375,6 +404,10 @@ func canonAssoc[K comparable, V any](s col.Sequential[col.AssociationLike[K, V]]
 // RunC20Assoc: Catalog and Map cells.
 func RunC20Assoc[K comparable, V comparable](c *core.Ctx, kt ElemType[K], vt ElemType[V], kind string) {
 	r := c.Rng
+	poison := ""
+	if r.Chance(1, 5) {
+		poison = c20poison(c, r)
+	}
 	n := r.Intn(21)
 	if r.Chance(1, 3) {
 		n = r.Intn(4)
@@ -395,6 +428,9 @@ func RunC20Assoc[K comparable, V comparable](c *core.Ctx, kt ElemType[K], vt Ele
 	form := []string{"array", "map", "sequence", "source", "none"}[r.Intn(5)]
 	x := &c20ctx{c: c, cell: kind + "/" + kt.Name + "," + vt.Name + "/" + form}
 	x.cs = map[string]any{"kind": kind, "key": kt.Name, "value": vt.Name, "form": form, "keys": fmt.Sprintf("%#v", ks), "values": fmt.Sprintf("%#v", vs)}
+	if poison != "" {
+		x.cs["earlier_rejected_call"] = poison
+	}
 	N := Notation
 	A := col.Association[K, V](N)
 	as := make([]col.AssociationLike[K, V], n)
